@@ -334,7 +334,7 @@ func genFn(t *rapid.T, depth int, counter *int, names *int) *fn {
 }
 
 func TestRandomBodies(t *testing.T) {
-	vt.Check(t, vt.N(8000, 200000), func(rt *rapid.T) {
+	vt.Check(t, vt.N(8000, 800000), func(rt *rapid.T) {
 		counter, names := 0, 0
 		top := genFn(rt, rapid.IntRange(0, 3).Draw(rt, "depth"), &counter, &names)
 		run(rt, top, true)
